@@ -194,13 +194,13 @@ theorem getValue_plain (c : Chr) (h : Plain c) (fc : Bool) (gf : Option GVal) :
     exact ⟨trivial, this.2⟩
 
 /-- the subscription half of the loop body: no panic, the characteristic is left alone -/
-theorem putEntry_tail_plain (s1 : St) (e : PutEntry) (h : Plain s1.char) :
+theorem putEntry_tail_plain (s1 : St) (e : PutEntry) (st0 : Option Int) (h : Plain s1.char) :
     let r : St × Outcome × Option Int :=
-      if JVal.isNull e.ev then (s1, .ok, none)
+      if JVal.isNull e.ev then (s1, .ok, st0)
       else if !s1.char.cfg.perms.ev then (s1, .ok, some statusNotificationNotSupported)
       else match e.ev with
-        | .bool b => ({ s1 with sub := b }, .ok, none)
-        | _ => (s1, .ok, none)
+        | .bool b => ({ s1 with sub := b }, .ok, st0)
+        | _ => (s1, .ok, st0)
     r.2.1 = .ok ∧ Plain r.1.char := by
   intro r
   simp only [r]
@@ -215,10 +215,10 @@ theorem putEntry_plain (s : St) (h : Plain s.char) (e : PutEntry) :
   unfold putEntry
   by_cases hn : JVal.isNull e.value = true
   · simp only [hn, if_true]
-    exact putEntry_tail_plain ⟨s.char, s.sub⟩ e h
+    exact putEntry_tail_plain ⟨s.char, s.sub⟩ e _ h
   · have := updateValue_plain s.char h (ofJson e.value) true true
     simp only [hn, Bool.false_eq_true, if_false, this.1]
-    exact putEntry_tail_plain ⟨_, s.sub⟩ e this.2
+    exact putEntry_tail_plain ⟨_, s.sub⟩ e _ this.2
 
 theorem putEntries_plain (es : List PutEntry) : ∀ (s : St) (acc : List Int), Plain s.char →
     (putEntries s es acc).2.1 = .ok ∧ Plain (putEntries s es acc).1.char := by
